@@ -28,6 +28,7 @@ rule = {"t": "single",  "map": [[from, to], ...], "text": how it is written}
      | {"t": "posctx",  "back": [...], "input": [[set, action]...], "ahead": [...]}     action = None | ["lookup", name] | ["value", V]
 V    = [xPlacement, yPlacement, xAdvance, yAdvance]
 A "set" is a list of glyph names (written as a single glyph, an inline class or a named class)."""
+import re
 
 SCRIPTS = ["latn", "cyrl", "grek"]
 LANGS = ["TRK ", "SRB ", "DEU "]
@@ -426,12 +427,36 @@ class Gen:
 
 
 # ---------------------------------------------------------------------- text
+def _next_name(a, b):
+    """b is the glyph that follows a in a feature-file glyph range (a single letter or a run of digits differs by one)."""
+    if len(a) == 1 and len(b) == 1 and a.isalpha() and b.isalpha() and a.isascii() and b.isascii():
+        return ord(b) == ord(a) + 1 and a.islower() == b.islower()
+    ma, mb = re.fullmatch(r"(\D*)(\d{1,3})", a), re.fullmatch(r"(\D*)(\d{1,3})", b)
+    return bool(ma and mb and ma.group(1) == mb.group(1) and len(ma.group(2)) == len(mb.group(2)) and int(mb.group(2)) == int(ma.group(2)) + 1)
+
+
+def w_members(members):
+    """The members of a class, runs of consecutive names spelled as ranges (`a - d`, `m1 - m3`): the AST keeps the explicit
+    list, so the compiler's range expansion is compared with it."""
+    out, i = [], 0
+    while i < len(members):
+        j = i
+        while j + 1 < len(members) and _next_name(members[j], members[j + 1]):
+            j += 1
+        if j > i and (j - i >= 2 or ord(members[j][-1]) % 2 == 0):
+            out.append(f"{members[i]} - {members[j]}")
+        else:
+            out.extend(members[i:j + 1])
+        i = j + 1
+    return " ".join(out)
+
+
 def w_set(s):
     if s["w"] == "g":
         return s["g"][0]
     if s["w"].startswith("@"):
         return s["w"]
-    return "[" + " ".join(s["g"]) + "]"
+    return "[" + w_members(s["g"]) + "]"
 
 
 def w_value(v):
@@ -527,7 +552,7 @@ def emit(prog):
     for s, l in prog["langsys"]:
         L.append(f"languagesystem {s} {l.strip()};")
     for name, members in prog["classes"].items():
-        L.append(f"@{name} = [{' '.join(members)}];")
+        L.append(f"@{name} = [{w_members(members)}];")
     for name, stmts in prog.get("markclasses", {}).items():
         for gl, a in stmts:
             gs = gl[0] if len(gl) == 1 else "[" + " ".join(gl) + "]"
